@@ -23,6 +23,9 @@ RULE = (
 ASSUMPTIONS = ["Gauss-Seidel vs Jacobi is not fixed by the statement: only fixed points, invariance and single-free-point exactness are compared"]
 
 
+SIZES = [1e-4, 1e3]
+
+
 def structured_quads(n, m):
     pos = [[i, j * 1.2, 0.0] for j in range(m + 1) for i in range(n + 1)]
     quads = []
@@ -198,6 +201,10 @@ def cases(tier, seed):
         for fr in frames:
             for jit in (1, 2):
                 out.append({"map": mp, "frame": fr, "jitter": jit})
+    # model sizes far from 1 (0.1 mm and 1 km): every distance in the model is SIZES times the unit one
+    for mp in (["s3x3", "s4x2", "v5", "irregular", "h3x3x2", "L3d"] if tier == "quick" else maps):
+        for size in SIZES:
+            out.append({"map": mp, "frame": frames[1], "jitter": 1, "size": size})
     return out
 
 
@@ -246,6 +253,8 @@ def build(case):
             v = np.array([v[0], v[1], 0.0])
         pos[i] += lvl * v
     pos = frame_apply(FRAMES[fr], pos)
+    if case.get("size"):
+        pos = np.asarray(pos) * case["size"]
     return pos, cells, dim, boundary, neigh, interior
 
 
@@ -273,6 +282,7 @@ def run_case(case):
     pos, cells, dim, boundary, neigh, interior = build(case)
     violations = []
     execs = 0
+    size = case.get("size", 1.0)
 
     def bad(clause, detail, **kw):
         violations.append({"clause": clause, "coords": dict(case, **kw), "detail": detail})
@@ -339,14 +349,14 @@ def run_case(case):
                 if iters == 200:
                     for i in free:
                         want = np.mean([newm[j] for j in sorted(neigh[i])], axis=0)
-                        if np.linalg.norm(newm[i] - want) > 1e-6:
+                        if np.linalg.norm(newm[i] - want) > 1e-6 * size:
                             bad("not-converged-to-neighbour-average", f"point {i} is {np.linalg.norm(newm[i] - want):.3g} away from the average of its neighbours", **coords)
                             break
                     if case["map"].startswith("s") or case["map"].startswith("h") and case["map"] != "halfdisk":
                         if not fixed:
                             # regular boundary -> regular lattice: compare with the un-jittered positions
                             pos0, _, _, _, _, _ = build(dict(case, jitter=0))
-                            if np.max(np.linalg.norm(newm - pos0, axis=1)) > 1e-6:
+                            if np.max(np.linalg.norm(newm - pos0, axis=1)) > 1e-6 * size:
                                 bad("regular-boundary-not-regular-lattice", f"max deviation {np.max(np.linalg.norm(newm - pos0, axis=1)):.3g}", **coords)
                 # copy-back consistency
                 if dim == 2:
